@@ -741,6 +741,10 @@ ExitStatus Builder::Build(string* err) {
         }
 
         if (!StartEdge(edge, err)) {
+          // The edge never reached the command runner, so nobody else will
+          // hand back the job slot acquired for it in Plan::FindWork().
+          if (jobserver_.get())
+            jobserver_->Release(std::move(edge->job_slot_));
           Cleanup();
           status_->BuildFinished();
           return ExitFailure;
